@@ -16,7 +16,7 @@ claim("C02", "DESIGN.md 5 C02",
       "picture id is the source id minus the number of withheld frames (ghost droppedFrames maintained by packetmap.Drop/Map), through call-site proof steps over the private copy.",
       "Assumed: pion depacketiser contracts (PacketFlags is treated as a deterministic function of codec and bytes), sync.Pool discipline (a pooled buffer has length 1504 and is not aliased), "
       "TrackLocalStaticRTP.Write does not modify its argument. Not decided: SSRC / payload type / header-extension rewriting inside pion (excluded by the statement); "
-      "the marker rule is proved as 'only ever set' in RewritePacket and setMarker's definition is read from the code, not separately specified.")
+      "the marker rule is proved as 'only ever set' in RewritePacket, and Write asks for it only on a packet that ends a frame, has no marker yet and belongs to the selected spatial layer (call-site obligation marker-top).")
 
 claim("C04", "DESIGN.md 5 C04",
       "The layer word: pack/unpack are proved lossless, and the invariant INV (selected and wanted layers never exceed the highest seen; limitSid implies wantedSid == 0; fields fit 4 bits) is proved "
@@ -25,7 +25,7 @@ claim("C04", "DESIGN.md 5 C04",
       "an up-switch point not above the wanted layer, or following a new top layer; an in-order packet above the selection is withheld (nothing emitted, recorded by the map); limitSid forces sid 0 at the next keyframe. "
       "adjustLayer moves only the wanted layers by one step within the seen range; updateRate's value is always within [minLossRate, maxLossRate] with no 64-bit overflow.",
       "Assumed: atomics are modelled as plain accesses within one function body (sequential), estimator readings arbitrary, pion TID/SID field widths. "
-      "replaceTracks' deferred update of the word (limitSid installed as requested, wanted spatial layer forced to 0, selection untouched, INV kept) is verified too. "
+      "replaceTracks' deferred update of the word (limitSid installed as requested, wanted spatial layer forced to 0, selection untouched, INV kept) is verified too, and replaceTracks itself guarantees that on every successful return - also when the set of tracks did not change - every track of the connection carries the request. "
       "Not decided: lost updates of the transition bookkeeping when Write and adjustLayer race.")
 
 claim("C05", "DESIGN.md 5 C05",
@@ -62,7 +62,8 @@ claim("C10", "DESIGN.md 5 C10",
       "on success of a non-system non-operator the group was not locked, not full (len(clients) <= MaxClients afterwards), inside its not-before/expires window, and with autokick an operator was found; "
       "on success the client is registered under its non-empty id, an existing registration under that id refuses the join; on every refusal the client object is left exactly as it was (Init not called: ghost count). "
       "autoLockKick never lifts or replaces an existing lock and locks only autolock groups; it is proved to be called with g.mu held at every call site (DelClient's call was outside the critical section: repaired). "
-      "AddClient/DelClient/Add frames are explicit (what they may modify) and checked write by write.",
+      "DelClient evaluates the rule on the table WITHOUT the leaver, inside the critical section of the removal (call-site obligation after-removal, ghost counter at the Unlock), so the last operator's departure is seen. "
+      "AddClient/DelClient/Add frames are explicit (what they may modify) and checked write by write. getClientsUnlocked / GetClients return every member other than the excepted one (visited-set ghost of the map range).",
       "group.add/Add are verified too: names the validator refuses are rejected before any lookup, and on every successful lookup the autolock/autokick rule has been evaluated for the group, under its mutex, after the description was settled (ghost counter; a new autolock group starts locked). "
       "Assumed: readDescription, descriptionMatch/Unchanged (trusted), group.Client callbacks do not touch the group's guarded state, time.Time comparisons are pure; Description.GetPermission is verified under C08/C09. "
       "Not decided: that a kicked client eventually leaves (liveness); description reload races with file edits; 'announced to no one' on refusal is read from the code structure (all notifications follow the insertion), not a separate obligation.")
@@ -93,7 +94,8 @@ claim("C15", "DESIGN.md 5 C15",
       "group history: AddToChatHistory keeps len <= 50, appends exactly the entry given, preserves order and drops exactly the oldest entry when full (overlapping copy modelled as memmove); "
       "discardObsoleteHistory/GetChatHistory return a suffix in order as a private copy; ClearChatHistory('', '') empties.",
       "Assumed: broadcast delivers to exactly the *webClient members of the slice it is given (trusted contract, body not yet verified), slices.DeleteFunc's documented behaviour, time.Since. "
-      "Not decided: that GetClients(except) is all members minus the sender (getClientsUnlocked ranges over a map: only 'a subset of the members' is modelled); the replay loop on join (handleAction); wall-clock meaning of the age limit.")
+      "GetClients(except) is proved to be all members minus the sender (visited-set ghost of the map range); discardObsoleteHistory keeps an entry only after testing one entry and finding it young enough (the scan does not just run out of entries). "
+      "Not decided: the replay loop on join (handleAction); that history entries are in time order; wall-clock meaning of the age limit.")
 
 claim("C17", "DESIGN.md 5 C17",
       "Authentication dominance in webserver/api.go: in apiHandler, apiGroupHandler, usersHandler, specialUserHandler, userHandler, passwordHandler, keysHandler and tokensHandler every call that reads or writes a group definition, "
@@ -149,7 +151,8 @@ claim("C16", "DESIGN.md 5 C16",
 claim("C19", "DESIGN.md 5 C19",
       "group.validGroupName is proved to accept exactly the good names (for all strings: not empty, no backslash, not absolute, no trailing slash, every component non-empty and neither '.' nor '..'), in both directions; "
       "validUsername is that or empty; webserver.parseGroupName is proved to return only good names or nothing (it returned names containing a backslash: repaired); "
-      "group.getDescriptionFile (both instantiations) hands the file system only paths of the form Directory joined with path.Clean of a ROOTED path plus '.json', so no name can climb out of the groups directory.",
+      "group.getDescriptionFile (both instantiations) hands the file system only paths of the form Directory joined with path.Clean of a ROOTED path plus '.json', so no name can climb out of the groups directory; "
+      "Description.GetPermission admits a client only under a username the validator accepts, on every login path (password, stateful token, JWT).",
       "Assumed (trusted contract, stated for rooted arguments only): path.Clean returns a canonical rooted path, leaves canonical paths unchanged and introduces no new bytes; strings.ContainsRune for ASCII; filepath.Join joins; os.Root confines (recordings, static files). "
       "The static-file handler, serveFile, the recordings handler and its delete action are under contract: files named by a request are opened or removed ONLY through the os.Root of their directory (any call of the unconfined os.Open/OpenFile/ReadFile/Stat/Remove/Rename or http.ServeFile in them is a failed obligation), "
       "recordings are served, listed or deleted only after the record permission for THAT group was checked, and a deletion removes Join(group, Clean('/'+filename)) for a slash-free file name. "
@@ -159,14 +162,15 @@ claim("C19", "DESIGN.md 5 C19",
 claim("C20", "DESIGN.md 5 C20",
       "NARROW: the recorder's boundary only. diskwriter.diskTrack.Write parses a private copy of the incoming packet of exactly its length (the caller's buffer is reused by the forwarding path, the sample builder retains packets); "
       "gap recovery calls fetch for exactly the missing numbers lastSeqno+1 .. seqno-1 in increasing order and only for gaps below 256; fetch asks the publisher's cache for that number without scheduling a NACK, "
-      "parses exactly the bytes returned (it parsed the whole 1504-byte buffer: repaired) from a buffer of its own, and writes only a packet that parsed; the incoming packet is written after the recovered ones; no panic in Write/fetch; the maybeUint32 helpers are exact.",
-      "Assumed: pion rtp.Packet.Unmarshal, writeRTP and requestKeyframe (trusted: they keep the track's connection, publisher and lock). "
-      "NOT decided (the larger part of the statement): everything inside writeRTP/writeBuffered, pion samplebuilder and ebml-go - frame completeness, order, duplicates, 'no frame after the first keyframe is missing', monotone timestamps, the shared time origin, container well-formedness, flush on close. "
+      "parses exactly the bytes returned (it parsed the whole 1504-byte buffer: repaired) from a buffer of its own, and writes only a packet that parsed; the incoming packet is written after the recovered ones; no panic in Write/fetch; the maybeUint32 helpers are exact. "
+      "adjustOrigin (audio and video share one time origin): when a file is opened the shift is computed from the opening track's timestamp at its own clock rate, and every track with an origin is moved by that same duration converted at THAT track's clock rate.",
+      "Assumed: pion rtp.Packet.Unmarshal, writeRTP and requestKeyframe (trusted: they keep the track's connection, publisher and lock); rtptime.FromDuration/ToDuration as pure functions of their arguments (128-bit arithmetic, not modelled). "
+      "NOT decided (the larger part of the statement): everything inside writeRTP/writeBuffered, pion samplebuilder and ebml-go - frame completeness, order, duplicates, 'no frame after the first keyframe is missing', monotone timestamps, the rest of the shared-origin logic (setOrigin, sender reports), container well-formedness, flush on close. "
       "These need contracts on third-party sample assembly and container code that is outside the repository.")
 
 PENDING = "not yet carried by the engine in this build (work in progress; see DESIGN.md section 9 for the order of work)"
 na("C07", "not decidable by per-call contracts here: the statement is an if-and-only-if over whole histories (every request change, publish, replace, close, kick in any interleaving) with asynchronous delivery through per-client action queues and a 200 ms push goroutine; it needs event-log ghosts over unbounded histories plus interference reasoning that this engine does not have. "
    "Per-function pieces ARE under contract and discharged under C11/C12 (rtpconn.requestedTracks$1 returns the first / the last track of a kind, requestedTracks returns at most two of the publisher's tracks and nothing when nothing is requested; handleClientMessage's guards on membership), but they do not add up to the property and are not claimed for it.")
 na("C14", "not decidable by per-call contracts here: convergence of every member's view at quiescence, 'exactly once', and 'no event about one group reaches a member of another' are statements over all interleavings of joins, leaves, kicks and permission changes with asynchronous delivery. "
-   "Even the per-operation fan-out ('every other member is told') is out of reach: the engine models a range over a map as yielding an arbitrary present key per step, so it cannot prove that group.getClientsUnlocked returns ALL members. "
+   "The snapshot functions group.getClientsUnlocked / GetClients are proved to return every member other than the excepted one (visited-set ghost of the map range), but the fan-out itself (one PushClient per member of the snapshot, in both directions, ordered against later joins) is not stated as a postcondition: the engine has no ghost for the multiset of calls issued to interface methods. "
    "AddClient/DelClient are under contract for C10/C13 (admission, locking, frames); their notification loops are verified for memory safety only.")
